@@ -156,7 +156,16 @@ def _adjoint_system(model: Model, fc, H: RuleResult):
         H.ok(bw.fq, "adjoint solve right-hand side is the incoming cotangent %s" % b.id)
     else:
         H.bad(bw, enclosing_stmt(call), "right-hand side of the adjoint solve must be the incoming cotangent")
-    # grad_E = <v, conj(M x)>
+    # grad_E = <v, conj(M x)>; v is whatever name the adjoint solve is bound to (and plain aliases of it)
+    st = enclosing_stmt(call)
+    v_names = {t.id for t in getattr(st, "targets", []) if isinstance(t, ast.Name)} if isinstance(st, ast.Assign) and st.value is call else set()
+    grew = True
+    while grew:
+        grew = False
+        for nm, ds in defs.items():
+            if nm not in v_names and len(ds) == 1 and isinstance(ds[0], ast.Name) and ds[0].id in v_names:
+                v_names.add(nm)
+                grew = True
     found = False
     for s in own_nodes(bw.node):
         if isinstance(s, ast.Assign) and isinstance(s.targets[0], ast.Name) and isinstance(s.value, ast.Call) \
@@ -167,7 +176,7 @@ def _adjoint_system(model: Model, fc, H: RuleResult):
             what = "%s" % norm_stmt(s, 100)
             if conj.count(True) == 1:
                 other = ops[conj.index(False)]
-                v_ok = isinstance(other, ast.Name) and other.id in def_use_closure(bw.node, {"grad_B"}, defs) | {"v"}
+                v_ok = isinstance(other, ast.Name) and other.id in v_names
                 if v_ok:
                     H.ok(bw.fq, "grad_E contracts the adjoint solution with a conjugated M x: " + what)
                 else:
